@@ -46,3 +46,6 @@ SPEC = {'id': 'C03',
                  'session ids of concurrent polls are pairwise distinct',
                  'no system step of another request disables an enabled step (commutation, argued not proved)'],
  'race': True}
+
+SPEC['rule'] += (' Added after the seeded-change rounds: ' +
+    'Oracle-only scenarios (shared with C02/C04, run one at a time against the real broker): many-waiting-proxies (300 restricted proxies, then clients of both kinds), same-sid-repoll-with-other-nat (an eligible proxy must not be lost when its id is polled again with another NAT type), nat-spellings (every accepted and rejected spelling of the NAT type on both sides).')
